@@ -22,16 +22,24 @@ VARS = {
     "p": ("real", None, True), "q": ("real", None, True),
     "r": ("real", "0:8", True),
     "n": ("integer", None, True), "m": ("integer", None, True),
+    # array-section family: 2-D / 1-D active candidates, row/column selectors
+    "d": ("real", "1:3,1:3", True), "e": ("real", "1:3", True),
+    "u": ("integer", None, True), "v": ("integer", None, True),
     "w": ("real", None, False),
     "i": ("integer", None, False), "j": ("integer", None, False),
 }
-ORDER = ["a", "b", "c", "s", "t", "p", "q", "r", "n", "m", "w", "i", "j"]
-CANDIDATES = ["a", "b", "c", "s", "t", "w"]      # may be declared active
+ORDER = ["a", "b", "c", "d", "e", "s", "t", "p", "q", "r", "n", "m", "u", "v", "w", "i", "j"]
+CANDIDATES = ["a", "b", "c", "d", "e", "s", "t", "w"]      # may be declared active
+# passive coefficient imported from another module: its type is unresolved, so
+# PSyAD's pre-processing (ArrayAssignment2LoopsTrans) leaves an array-section
+# assignment that uses it in array notation
+IMPORTED = "cp"
+IMPORT_MODULE = "phys_mod"
 REAL_PASSIVE = ["p", "q", "r"]
 
 _TOKEN = re.compile(r"[A-Za-z_][A-Za-z_0-9]*")
 _KEYWORDS = {"do", "end", "if", "then", "else", "mod", "enddo", "endif", "real",
-             "max", "min", "and", "or", "not"}
+             "max", "min", "and", "or", "not", "sum", IMPORTED}
 
 
 def used_vars(body):
@@ -45,11 +53,17 @@ def used_vars(body):
     return [v for v in ORDER if v in names]
 
 
+def uses_import(body):
+    return any(IMPORTED in _TOKEN.findall(line.lower()) for line in body)
+
+
 def source(body):
     '''Fortran module text of a kernel body (list of lines).'''
     used = used_vars(body)
     args = [v for v in used if VARS[v][2]]
     out = ["module k_mod", "contains", "subroutine k(%s)" % ", ".join(args)]
+    if uses_import(body):
+        out.append("  use %s, only: %s" % (IMPORT_MODULE, IMPORTED))
     for v in used:
         ty, dim, isarg = VARS[v]
         attr = ty
@@ -165,19 +179,79 @@ THOROUGH_HEADS = QUICK_HEADS + [("1", "n", "2"), ("m", "n", "3"), ("2*m-1", "n+m
                                 ("1", "n", "m"), ("n", "1", "-m")]
 
 
+# ------------------------------------------------------- array-section family
+# Assignments to array sections that survive PSyAD's pre-processing and reach
+# AssignmentTrans in array notation: the right-hand side uses the imported
+# coefficient cp (unresolved type) or a non-elemental intrinsic (SUM of a
+# passive array) - ArrayAssignment2LoopsTrans refuses both.  2-D active array d
+# with a section in one dimension and a scalar index (same / different /
+# literal / loop variable) in the other; the left-hand array on the right-hand
+# side or not; sections with different bounds; rows against columns.  Entries
+# without cp / sum are the controls that pre-processing does turn into loops.
+SECTIONS = {
+    "x1":  ["e(:) = cp*e(:)"],
+    "x2":  ["d(u,:) = e(:)*cp"],
+    "x3":  ["e(:) = cp*d(u,:) + e(:)"],
+    "x4":  ["d(:,:) = cp*d(:,:)"],
+    "x5":  ["d(u,:) = cp*d(v,:) + e(:)"],
+    "x6":  ["d(u,:) = cp*d(u,:) + e(:)"],
+    "x7":  ["d(:,u) = d(:,v)/cp - e(:)"],
+    "x8":  ["d(u,1:2) = cp*d(u,2:3)"],
+    "x9":  ["d(u,1:2) = cp*d(v,1:2) + e(2:3)"],
+    "x10": ["d(u,:) = d(u,:) + cp*d(v,:)"],
+    "x11": ["d(2,:) = cp*d(1,:) + e(:)"],
+    "x12": ["d(u,:) = e(:) - d(v,:)/cp"],
+    "x13": ["do i = 1, 3", "  d(i,:) = cp*d(i,:) + e(:)", "end do"],
+    "x14": ["do i = 2, 3", "  d(i,:) = cp*d(i-1,:) + e(:)", "end do"],
+    "x15": ["do i = 1, 3", "  d(i,:) = cp*d(u,:) + e(:)", "end do"],
+    "x16": ["d(u,:) = sum(r(1:2))*d(v,:) + e(:)"],
+    "x17": ["e(:) = sum(r(1:2))*e(:) + d(:,u)"],
+    "x18": ["e(1:2) = cp*e(2:3)"],
+    "x19": ["d(u,:) = cp*e(:)", "e(:) = cp*d(v,:)"],
+    "x20": ["d(:,u) = cp*d(v,:)"],
+    "x21": ["d(u,:) = cp*d(:,v) + e(:)"],
+    "x22": ["e(:) = e(:) + cp*d(u,:) - d(v,:)/cp"],
+    "x23": ["d(u,:) = 0.0", "d(u,:) = cp*e(:)"],
+    "x24": ["d(u,:) = -cp*d(v,:)"],
+    "x25": ["d(u,2:3) = cp*d(u,2:3) + e(1:2)"],
+    "x26": ["d(u,:) = cp*d(u,:) - d(v,:)*sum(r(0:1))"],
+    "x27": ["d(1,:) = cp*d(u,:) + e(:)"],
+    "x28": ["d(u,1:2) = cp*d(v,2:3)"],
+    "x29": ["e(:) = cp*d(u,:)", "d(v,:) = e(:)/cp + d(v,:)"],
+    "x30": ["d(:,u) = sum(r(2:3))*d(:,u) + cp*e(:)"],
+    # controls: no imported coefficient, pre-processing makes loops
+    "y1":  ["d(u,:) = p*d(v,:) + e(:)"],
+    "y2":  ["d(:,u) = d(:,u) + p*d(:,v)"],
+    "y3":  ["e(:) = p*d(u,:) - e(:)/q"],
+}
+SECTIONS_THOROUGH = {
+    "x31": ["do i = 1, 2", "  d(i,:) = cp*d(i+1,:) + e(:)", "end do"],
+    "x32": ["do i = 3, 1, -1", "  d(:,i) = cp*d(:,u) + d(:,i)", "end do"],
+    "x33": ["d(u,:) = cp*d(v,:)", "d(v,:) = cp*d(u,:) + e(:)"],
+    "x34": ["if (u > 1) then", "  d(u,:) = cp*d(u-1,:) + e(:)", "end if"],
+    "x35": ["d(u,1:3:2) = cp*d(v,1:3:2)"],
+    "x36": ["d(u,:) = (d(v,:) + e(:))*cp"],
+    "x37": ["e(:) = cp*e(:)", "d(u,:) = cp*d(v,:) - e(:)"],
+    "x38": ["d(u,:) = cp*d(v,:) + cp*d(2,:)"],
+    "x39": ["d(1:2,u) = cp*d(2:3,v) + e(1:2)"],
+    "x40": ["d(u,:) = sum(r(1:2))*d(v,:) - d(u,:)/cp"],
+}
+
+
 def _loop(h, nm):
     return ("L|%s,%s,%s|%s" % (h + (nm,)),
             [head_text(h)] + ["  " + l for l in BODIES[nm]] + ["end do"])
 
 
-def kernels(tier):
-    '''Yield (id, body lines).'''
+def kernels(tier, seed=0):
+    '''Yield (id, body lines).  The seed rotates which cheap body carries
+    which loop head in the quick tier.'''
     heads = loop_heads(tier)
     names = list(BODIES)
     seen = set()
     if tier == "quick":
         # every head with one cheap body (rotating); every body with six heads
-        pairs = [(h, HEAD_BODIES[k % len(HEAD_BODIES)]) for k, h in enumerate(heads)]
+        pairs = [(h, HEAD_BODIES[(k + seed) % len(HEAD_BODIES)]) for k, h in enumerate(heads)]
         pairs += [(h, nm) for nm in names for h in QUICK_HEADS]
     else:
         # every head with eight bodies, every body with sixteen heads
@@ -191,6 +265,11 @@ def kernels(tier):
         yield ("S|" + nm, list(body))
     for nm, body in NESTED.items():
         yield ("N|" + nm, list(body))
+    for nm, body in SECTIONS.items():
+        yield ("X|" + nm, list(body))
+    if tier != "quick":
+        for nm, body in SECTIONS_THOROUGH.items():
+            yield ("X|" + nm, list(body))
     # a loop between straight-line statements
     for h in [("1", "n", "1"), ("1+m", "n", "2"), ("n", "1", "-2"), ("m", "n-1", "3")]:
         yield ("M|%s,%s,%s" % h,
